@@ -209,6 +209,13 @@ class Interpreter(BaseInterpreter[TContext, TEvent]):
             # 👶 Resume restored child actors too, so a whole hierarchy comes
             #    back alive rather than just its root.
             for actor in list(self._actors.values()):
+                # 🛑 A child persisted as `stopped` (stopped through its
+                #    systemId by an actor other than its parent, it stays
+                #    listed) has nothing to resume, and `start()` on it
+                #    raises - which made the whole restored hierarchy
+                #    unresumable.
+                if actor.status == "stopped":
+                    continue
                 resumed = actor.start()
                 if inspect.isawaitable(resumed):
                     await resumed
